@@ -23,7 +23,8 @@ NA_FIXED = {
 TECH = {
     'C01': 'table/relation extraction (precedence order, arity, pop relation), '
            'regex-AST language analysis, writer/reader symmetry on ast, '
-           'loss-free derivation of the rendered text from the argument tokens',
+           'loss-free derivation of the rendered text from the argument tokens, '
+           'per-iteration freshness of tokens appended in loops',
     'C02': 'registry partial evaluation + AST operator-table agreement, '
            'dominance of error check, type-rank relation, in-place-write '
            'effect analysis on the operator cores and helpers',
@@ -33,7 +34,8 @@ TECH = {
            'dependence, numeric row-bound comparison',
     'C04': 'regex-AST group/consumer exhaustiveness, sibling agreement of fast '
            'paths, constant-table agreement, enumerate-before-filter '
-           'derivation of external-link indices, cache-key dependence',
+           'derivation of external-link indices, cache-key dependence, corner '
+           'pairing of the parts a fast path reads',
     'C05': 'must-pass-through on evaluation paths (followed into helpers that '
            'are handed the evaluator), sibling agreement of reshape helpers, '
            'in-place-write effect analysis',
@@ -57,11 +59,12 @@ TECH = {
     'C10': 'registry table agreement (lazy set, guard positions), '
            'order-determinism of cut-node choice (loops and short-circuit '
            'reducers), per-component definition of the search state, '
-           'accumulate-not-overwrite on the cut map',
+           'accumulate-not-overwrite on the cut map, ownership of a graph '
+           'consumed without copy, unfiltered component work-list',
     'C11': 'registry wrapper-chain analysis, exception-escape analysis, '
            'check-before-use (error-dropping sinks), must-use dataflow of '
            'unchecked arguments on value-returning paths, guarded return '
-           'leaves of the finiteness funnel',
+           'leaves of the finiteness funnel, effect-freedom of the error scan',
     'C13': 'call-graph reachability of nondeterminism sources + '
            'who-may-register (effect discipline), dominance on pre-evaluation '
            'sites, whole-value registration of compiled token functions, '
@@ -69,7 +72,8 @@ TECH = {
            'inference through a registered input parser',
     'C14': 'three-site exception-class agreement, handler breadth '
            '(must-pass-through), compile-before-discard dominance in '
-           'Cell.compile, cache-key dependence',
+           'Cell.compile, cache-key dependence, path conditions of the '
+           'external-link store',
     'C15': 'work-list discipline and drop-path classification on CFG, '
            'snapshot-freshness dataflow, numeric row-bound comparison',
     'C17': 'pickling-hook/attribute-set sibling agreement, module-level token '
@@ -84,7 +88,8 @@ TECH = {
            'coverage of int() on unbounded digit runs, store-to-break '
            'analysis of the sentinel form of for-else',
     'C19': 'call-graph sibling agreement, type-guard dominance, slot-memo '
-           'dependence, in-place-write effect analysis on lookup cores',
+           'dependence, in-place-write effect analysis on lookup cores, '
+           'comparisons only on type-filtered candidates',
     'C20': 'constant folding and table agreement against Excel limits, '
            'untyped-memo kind dependence followed through dispatcher nodes',
 }
